@@ -32,7 +32,7 @@ from s_common import (VarTracker, E, gen, T, Acc, digest, goal_to_source, case_s
 ORACLE_N = 40
 LIMITS = (60, 100, 200, 400)
 NS = (10, 50, 200, 1000)
-MODES = ('canon', 'to_python', 'raise', 'runtime', 'stop', 'nested')
+MODES = ('canon', 'to_python', 'raise', 'runtime', 'stop', 'nested', 'none')
 MARGIN = 3
 RULE = __doc__.split('Cases:', 1)[1].strip()
 
@@ -94,10 +94,18 @@ def depth_here():
     return n
 
 
-def make_projection(mode, k, evars, log, yp=None):
+def make_projection(mode, k, evars, log, yp=None, target=None):
     """log: list of projected values (appended before a raise is considered)"""
     def canon_p(_x):
         return S.snap(evars)
+
+    def none_p(_x):
+        # a projection function may return None (e.g. for an answer it has nothing to say about): the result still holds one
+        # entry per answer
+        v = S.snap(evars)
+        return None if v == target else v
+    if mode == 'none':
+        return none_p
 
     def nested_p(_x):
         # a projection function that itself uses evaluate_bounded on the same engine (an inner call that completes while the
@@ -243,7 +251,13 @@ def check_point(ctx, limit, mode, k, pre):
     except TypeError:
         return None, 'skipped: partial list answer (to_python undefined)', False, {}
     log = []
-    proj = make_projection(mode, k, ctx.evars, log, yp)
+    target = None
+    if mode == 'none':
+        target = expected[k - 1] if 0 < k <= len(expected) else ('no such answer',)
+        exp = [None if a == target else a for a in expected]
+    proj = make_projection(mode, k, ctx.evars, log, yp, target)
+    if mode == 'none':
+        mode = 'canon'       # everything else is judged as for the plain projection
     sys.setrecursionlimit(pre)
     VarTracker.start()
     try:
@@ -340,7 +354,7 @@ def _short(x):
 # ------------------------------------------------------------------ scenario generation
 def draw_point(rng, nanswers=None):
     limit = rng.choice(LIMITS) if rng.random() < 0.8 else rng.randint(60, 400)
-    mode = rng.choice(('canon', 'canon', 'to_python', 'to_python', 'raise', 'raise', 'runtime', 'stop', 'nested'))
+    mode = rng.choice(('canon', 'canon', 'to_python', 'to_python', 'raise', 'raise', 'runtime', 'stop', 'nested', 'none'))
     top = max(1, min(nanswers if nanswers is not None else 6, 12))
     k = rng.randint(1, top)
     pre = rng.choice((3000, 12000))
